@@ -6,6 +6,7 @@ import (
 	"hash/fnv"
 	"math/rand/v2"
 	"os"
+	"runtime"
 	"sort"
 	"strings"
 	"testing/synctest"
@@ -77,6 +78,10 @@ type Env struct {
 
 	cleanup []func()
 	start   time.Time
+	// Free: free-running mode for the race detector (C15): no lock-step, tasks
+	// are plain goroutines, links deliver at once, yields perturb the schedule.
+	Free        bool
+	freeCrashes []simhook.Crash
 	// NoAutoAdvance: when nothing is enabled, Drive returns Quiescent instead
 	// of jumping to the next known deadline (position sweeps place the expiry themselves).
 	NoAutoAdvance bool
@@ -130,6 +135,13 @@ func (e *Env) Log(kind, who string, call int, info string) int {
 	return n
 }
 
+// EvCount returns the number of events so far.
+func (e *Env) EvCount() int {
+	histMu.Lock()
+	defer histMu.Unlock()
+	return e.evN
+}
+
 // NextEv returns a fresh event number without logging.
 func (e *Env) NextEv() int {
 	histMu.Lock()
@@ -162,7 +174,33 @@ func (e *Env) Pt(label string) { simhook.Yield(label) }
 
 // Go starts a harness task.
 func (e *Env) Go(name string, fn func()) *simhook.Task {
+	if e.Free {
+		go func() {
+			defer func() {
+				if r := recover(); r != nil {
+					buf := make([]byte, 8<<10)
+					buf = buf[:runtime.Stack(buf, false)]
+					histMu.Lock()
+					e.freeCrashes = append(e.freeCrashes, simhook.Crash{Task: name, Value: fmt.Sprint(r), Stack: string(buf)})
+					histMu.Unlock()
+				}
+			}()
+			simhook.Yield("start:" + name)
+			fn()
+		}()
+		return nil
+	}
 	return simhook.GoNamed(name, fn)
+}
+
+// Crashes returns the crashes recorded so far (either mode).
+func (e *Env) Crashes() []simhook.Crash {
+	if e.Free {
+		histMu.Lock()
+		defer histMu.Unlock()
+		return append([]simhook.Crash(nil), e.freeCrashes...)
+	}
+	return e.W.Crashes()
 }
 
 // WithTimeout creates a context with a deadline on the fake clock and tells
@@ -353,6 +391,9 @@ const (
 // point), nothing is enabled and no known timer remains, a crash is recorded,
 // or the step budget is exhausted.
 func (e *Env) Drive(cond func() bool) Reason {
+	if e.Free {
+		return e.driveFree(cond)
+	}
 	var abuf []action
 	var tbuf []*simhook.Task
 	tbuf = make([]*simhook.Task, 0, 64)
@@ -389,6 +430,31 @@ func (e *Env) Drive(cond func() bool) Reason {
 			a.l.deliver()
 		}
 	}
+}
+
+// driveFree: free-running mode. The condition is polled while the tasks run
+// (so that faults land in mid-flight), then the bubble is left to quiesce.
+func (e *Env) driveFree(cond func() bool) Reason {
+	for round := 0; round < 50; round++ {
+		n := 50 + int(e.sch.IntN(400))
+		for i := 0; i < n; i++ {
+			if cond != nil && cond() {
+				return CondMet
+			}
+			runtime.Gosched()
+		}
+		synctest.Wait()
+		if len(e.Crashes()) > 0 {
+			return Crashed
+		}
+		if cond != nil && cond() {
+			return CondMet
+		}
+		if e.NoAutoAdvance || !e.advanceToNextTimer() {
+			return Quiescent
+		}
+	}
+	return Quiescent
 }
 
 // Advance moves the fake clock by d and lets everything that became due run
@@ -507,6 +573,12 @@ func (e *Env) Teardown() {
 	for i := len(e.cleanup) - 1; i >= 0; i-- {
 		e.cleanup[i]()
 	}
+	if e.Free {
+		synctest.Wait()
+		time.Sleep(2 * time.Minute)
+		synctest.Wait()
+		return
+	}
 	e.Replay = nil
 	e.Record = false
 	e.Strategy = StratRunToBlock
@@ -526,7 +598,11 @@ func (e *Env) Teardown() {
 }
 
 // OnTeardown registers a cleanup (cancel funcs etc.).
-func (e *Env) OnTeardown(f func()) { e.cleanup = append(e.cleanup, f) }
+func (e *Env) OnTeardown(f func()) {
+	histMu.Lock()
+	e.cleanup = append(e.cleanup, f)
+	histMu.Unlock()
+}
 
 // Leaked returns the names (with last site) of goat tasks still alive.
 func (e *Env) Leaked() []string {
